@@ -498,6 +498,24 @@ func (h *harness) runOnce(spec *actionSpec, cfg runConfig) *observation {
 	return obs
 }
 
+// uploadsLeftInFlush tells how many of the blobs that the FindMissing call
+// preceding position seq reported missing had not been handed to Put yet
+// when call seq returned (put concurrency 1: uploads are sequential).
+func uploadsLeftInFlush(calls []outkit.Call, seq int) int {
+	missing, puts := 0, 0
+	for _, c := range calls {
+		if c.Seq == 0 || c.Seq > seq || c.Store != "cas" {
+			continue
+		}
+		if c.Op == "FindMissing" {
+			missing, puts = c.Missing, 0
+		} else if c.Op == "Put" {
+			puts++
+		}
+	}
+	return missing - puts
+}
+
 func failedBetween(calls []outkit.Call, lo, hi int) bool {
 	for _, c := range calls {
 		if c.Seq > lo && c.Seq <= hi && c.Err != "" {
@@ -564,6 +582,18 @@ func (h *harness) judge(spec *actionSpec, cfg runConfig, obs *observation) {
 		if cfg.Kind == outkit.FaultCancel {
 			r.Situation("context-cancelled")
 		}
+		if cfg.Kind == outkit.FaultCancelAfter && hit.Store == "cas" && hit.Phase != "after-flush" {
+			// The call at the fault position succeeded and the context
+			// died as it returned.
+			switch left := uploadsLeftInFlush(obs.Calls, hit.Seq); {
+			case hit.Op == "FindMissing" && hit.Missing > 0:
+				r.Situation("cancelled-after-findmissing-before-first-upload")
+			case hit.Op == "Put" && left > 0:
+				r.Situation("cancelled-after-successful-upload-with-uploads-left")
+			case hit.Op == "Put":
+				r.Situation("cancelled-after-last-upload-of-flush")
+			}
+		}
 		if spec.cacheableSuccess() {
 			r.Situation("fault-in-cacheable-successful-action")
 		}
@@ -604,7 +634,7 @@ func (h *harness) replay(file string) {
 		return
 	}
 	kind := outkit.FaultNone
-	for _, k := range []outkit.FaultKind{outkit.FaultErrDiscard, outkit.FaultErrAfterRead, outkit.FaultSticky, outkit.FaultCancel} {
+	for _, k := range []outkit.FaultKind{outkit.FaultErrDiscard, outkit.FaultErrAfterRead, outkit.FaultSticky, outkit.FaultCancel, outkit.FaultCancelAfter} {
 		if k.String() == w.FaultKind {
 			kind = k
 		}
@@ -620,7 +650,7 @@ const workers = 4
 func TestCheck(t *testing.T) {
 	r := ev.Start("C09")
 	defer r.Finish()
-	r.SetRule("pipeline: generated actions (0-4 declared outputs: files with duplicate contents, nested directories, symlinks, missing; stdout/stderr; exit codes; runner errors; do_not_cache; three output directory formats; preloaded CAS blobs) x batch size {1,2,3,100}: one clean run counts the storage calls N (CAS FindMissing/Put, AC Put), then one run per position k<=N and fault kind (error before reading, error after reading [Put only], outage from k on, context cancelled at k), put concurrency 1, plus random positions with put concurrency 3. batching sub-harness: random Put/flush sequences with reader-backed buffers. A case is non-trivial when the fault position was reached (pipeline) or a fault/duplicate/skip occurred (batch); distinct = distinct (call sequence, fault, status, AC state) hashes")
+	r.SetRule("pipeline: generated actions (0-4 declared outputs: files with duplicate contents, nested directories, symlinks, missing; stdout/stderr; exit codes; runner errors; do_not_cache; three output directory formats; preloaded CAS blobs) x batch size {1,2,3,100}: one clean run counts the storage calls N (CAS FindMissing/Put, AC Put), then one run per position k<=N and fault kind (error before reading, error after reading [Put only], outage from k on, context cancelled right before call k, context cancelled right after call k completed successfully), put concurrency 1, plus random positions with put concurrency 3. batching sub-harness: random Put/flush sequences with reader-backed buffers. A case is non-trivial when the fault position was reached (pipeline) or a fault/duplicate/skip occurred (batch); distinct = distinct (call sequence, fault, status, AC state) hashes")
 	r.Assume("fake CAS/AC are sequentially consistent in-memory maps; a storage call that returns nil has stored the blob")
 	r.Assume("the fake AC ignores context cancellation (allowed for a backend), the fake CAS honours it")
 	r.Assume("executor composition is the harness' transcription of cmd/bb_worker/main.go (native build directory branch) with transparent taps; main.go itself is not executed")
@@ -631,6 +661,8 @@ func TestCheck(t *testing.T) {
 		"fault-on-historical-response-put", "duplicate-digest-acknowledged",
 		"sticky-error-consumed-by-flush", "blob-skipped-as-present", "context-cancelled",
 		"fault-in-cacheable-successful-action",
+		"cancelled-after-findmissing-before-first-upload", "cancelled-after-successful-upload-with-uploads-left",
+		"cancelled-after-last-upload-of-flush",
 	} {
 		if r.ReplayFile() == "" {
 			r.Floor(s, 10)
@@ -651,7 +683,7 @@ func TestCheck(t *testing.T) {
 
 	runBatchHarness(r)
 
-	nActions := r.Pick(24, 400)
+	nActions := r.Pick(20, 400)
 	batchSizes := []int{1, 2, 3, 100}
 	outkit.ParallelFor(nActions*len(batchSizes), workers, func(unit int) {
 		ai := unit / len(batchSizes)
@@ -676,7 +708,7 @@ func TestCheck(t *testing.T) {
 				}
 			}
 			for k := 1; k <= base.Counted; k++ {
-				kinds := []outkit.FaultKind{outkit.FaultErrDiscard, outkit.FaultSticky, outkit.FaultCancel}
+				kinds := []outkit.FaultKind{outkit.FaultErrDiscard, outkit.FaultSticky, outkit.FaultCancel, outkit.FaultCancelAfter}
 				if opAt[k].Op == "Put" {
 					kinds = append(kinds, outkit.FaultErrAfterRead)
 				}
@@ -691,7 +723,7 @@ func TestCheck(t *testing.T) {
 			crng := r.Rand(10, uint64(ai), uint64(bs))
 			for i := 0; i < 3 && base.Counted > 0; i++ {
 				cfg := runConfig{BatchSize: bs, PutConcurrency: 3, FaultAt: 1 + crng.IntN(base.Counted),
-					Kind: []outkit.FaultKind{outkit.FaultErrDiscard, outkit.FaultErrAfterRead, outkit.FaultSticky, outkit.FaultCancel}[crng.IntN(4)]}
+					Kind: []outkit.FaultKind{outkit.FaultErrDiscard, outkit.FaultErrAfterRead, outkit.FaultSticky, outkit.FaultCancel, outkit.FaultCancelAfter}[crng.IntN(5)]}
 				r.Case("action %d batch %d concurrent fault %s at %d", ai, bs, cfg.Kind, cfg.FaultAt)
 				obs := h.runOnce(spec, cfg)
 				h.judge(spec, cfg, obs)
